@@ -14,7 +14,7 @@
 (* Canon   end of a setter history: the encodings of the history and of    *)
 (*         its canonical replay                                            *)
 (***************************************************************************)
-EXTENDS PsaClaims, TraceLib
+EXTENDS PsaClaimsSM, TraceLib
 VARIABLES l, bad
 tvars == <<obj, ret, l, bad>>
 
